@@ -16,7 +16,7 @@ use libc::{c_int, c_void, off64_t, size_t, ssize_t};
 
 #[derive(Clone, Debug)]
 pub enum Io {
-    Write { off: u64, data: Vec<u8>, flen_after: u64, short: bool },
+    Write { off: u64, data: Vec<u8>, flen_after: u64, flen_before: u64, short: bool },
     Sync { flen: u64 },
     Fail { what: &'static str, index: i64, errno: i32, partial: usize },
 }
@@ -158,6 +158,7 @@ pub unsafe extern "C" fn write(fd: c_int, buf: *const c_void, count: size_t) -> 
         return libc::syscall(libc::SYS_write, fd, buf, count) as ssize_t;
     }
     let off = libc::syscall(libc::SYS_lseek, fd, 0 as off64_t, libc::SEEK_CUR) as i64;
+    let flb = file_len(fd);
     if let Some((idx, kind, errno)) = should_fail() {
         let mut partial = 0usize;
         if kind == 1 && count > 1 {
@@ -170,7 +171,7 @@ pub unsafe extern "C" fn write(fd: c_int, buf: *const c_void, count: size_t) -> 
             if r > 0 {
                 let data = std::slice::from_raw_parts(buf as *const u8, r as usize).to_vec();
                 let fl = file_len(fd);
-                LOG.lock().unwrap().push(Io::Write { off: off as u64, data, flen_after: fl, short: true });
+                LOG.lock().unwrap().push(Io::Write { off: off as u64, data, flen_after: fl, flen_before: flb, short: true });
                 // the next call (write_all retries the rest) fails
                 FAIL_AT.store(idx + 1, Ordering::SeqCst);
                 FAIL_KIND.store(0, Ordering::SeqCst);
@@ -186,7 +187,7 @@ pub unsafe extern "C" fn write(fd: c_int, buf: *const c_void, count: size_t) -> 
     if r > 0 {
         let data = std::slice::from_raw_parts(buf as *const u8, r as usize).to_vec();
         let fl = file_len(fd);
-        LOG.lock().unwrap().push(Io::Write { off: off as u64, data, flen_after: fl, short: false });
+        LOG.lock().unwrap().push(Io::Write { off: off as u64, data, flen_after: fl, flen_before: flb, short: false });
     }
     r
 }
@@ -196,6 +197,7 @@ pub unsafe extern "C" fn pwrite64(fd: c_int, buf: *const c_void, count: size_t, 
     if !is_target(fd) {
         return libc::syscall(libc::SYS_pwrite64, fd, buf, count, offset) as ssize_t;
     }
+    let flb = file_len(fd);
     if let Some((idx, _kind, errno)) = should_fail() {
         LOG.lock().unwrap().push(Io::Fail { what: "pwrite", index: idx, errno, partial: 0 });
         set_errno(errno);
@@ -205,7 +207,7 @@ pub unsafe extern "C" fn pwrite64(fd: c_int, buf: *const c_void, count: size_t, 
     if r > 0 {
         let data = std::slice::from_raw_parts(buf as *const u8, r as usize).to_vec();
         let fl = file_len(fd);
-        LOG.lock().unwrap().push(Io::Write { off: offset as u64, data, flen_after: fl, short: false });
+        LOG.lock().unwrap().push(Io::Write { off: offset as u64, data, flen_after: fl, flen_before: flb, short: false });
     }
     r
 }
